@@ -174,6 +174,17 @@ def check_case(case):
             r.check("small-angle", float(np.max(np.abs(m[:, 1] - ref))), 1e-4, key, "Umis resolves a small misorientation on top of a symmetry operator", ref, m[:, 1])
             r.check("small-angle-min", abs(float(m[:, 1].min()) - epsdeg), 1e-4, key + ":min", "smallest angle = the applied misorientation", epsdeg, float(m[:, 1].min()))
             r.transitions += 1
+    # history: one work buffer refilled in place between consecutive calls (either argument position)
+    for pos in (0, 1):
+        buf = np.array(R[(case["i"] + 3) % len(R)][1], float)
+        fixed = R[(case["i"] + 11) % len(R)][1]
+        symmetry.Umis(*((buf, fixed) if pos == 0 else (fixed, buf)), k)
+        buf[...] = U1
+        m = np.asarray(symmetry.Umis(*((buf, fixed) if pos == 0 else (fixed, buf)), k), float)
+        a_, b_ = (U1, fixed) if pos == 0 else (fixed, U1)
+        ref = np.array([ang(a_.T @ b_ @ rot[j].T) for j in range(len(rot))])
+        r.check("reused-buffer", float(np.max(np.abs(m[:, 1] - ref))), 1e-4, "cs%d:U1=%s:reused-buffer-arg%d" % (k, q1, pos),
+                "Umis uses the CURRENT contents of an orientation array the caller refills in place", ref, m[:, 1])
     # history: results already returned must not change when Umis is called again (same crystal system, other orientations)
     held = []
     for q2, U2 in R[:6]:
